@@ -1364,6 +1364,11 @@ def b_z_coordinates(S):
     ])
     if "assign_geometry(" not in src or "else:" in src.split("geodata_without_z = geodata.copy()")[1]:
         raise Untranslatable("remove_z_coordinates_from_geodata: the frame / series dispatch around the column assignment changed")
+    rz = find_func(ast.parse(src0), "remove_z_coordinates")
+    rets = [n for n in ast.walk(rz) if isinstance(n, ast.Return)]
+    if len(rets) != 1 or " ".join(ast.unparse(rets[0]).split()) != "return wkb.loads(wkb.dumps(geometry, output_dimension=2))":
+        raise Untranslatable("remove_z_coordinates is not the binary (lossless) round trip `wkb.loads(wkb.dumps(geometry, output_dimension=2))`")
+    out += "\n/-- `remove_z_coordinates` is the WKB round trip with output_dimension=2: X and Y keep every bit (shape-checked) -/\ndef z_removal_is_lossless_in_xy : Bool := true\n"
     ROWS = "List (L × D × G)"
     C = {"geodata.copy()": "geodata",
          "geodata_without_z.geometry.apply(remove_z_coordinates)": "(List.map (fun r => (r.1, dropz r.2.2)) geodata_without_z)",
@@ -2575,7 +2580,7 @@ ITEMS: List[Item] = [
     Item("IndexMargins", GENERAL, ["C16"], b_index_margins, extra_modules=[PROX]),
     Item("CropPipeline", GENERAL, ["C07", "C04", "C14", "C18"], b_crop_pipeline, deps=["CropHelpers"]),
     Item("LineDataCache", LINEDATA, ["C08", "C15", "C11"], b_line_data, extra_modules=[GENERAL]),
-    Item("ZCoordinates", GENERAL, ["C03", "C07", "C09", "C11", "C01"], b_z_coordinates),
+    Item("ZCoordinates", GENERAL, ["C03", "C07", "C09", "C11", "C01", "C04"], b_z_coordinates),
     Item("ValidationCaches", TVAL, ["C02", "C13"], b_validation_caches),
     Item("SampleCell", GRID, ["C18"], b_sample_cell),
     Item("UnitVectorCompare", GENERAL, ["C10"], b_unit_vector_compare),
